@@ -97,3 +97,49 @@ func min(a, b int) int {
 	}
 	return b
 }
+
+// obligation table.(*Reader).find:assert(C08,C13:data-block-read-with-the-readers-checksum-setting)
+// With block checksums on, a flipped byte in a data block is reported whatever path a lookup takes to that block
+// (exact hit, or first key of the next block) and whatever the read options say about the cache.
+func TestFlippedByteIsReportedOnEveryLookupPath(t *testing.T) {
+	o := &opt.Options{BlockSize: 256, BlockRestartInterval: 4, Compression: opt.NoCompression, Strict: opt.StrictBlockChecksum}
+	const n = 60
+	keys, values := make([][]byte, n), make([][]byte, n)
+	for i := 0; i < n; i++ {
+		keys[i] = []byte(fmt.Sprintf("key%04d", i*5))
+		values[i] = []byte(fmt.Sprintf("value-%04d-0123456789", i))
+	}
+	buf := &bytes.Buffer{}
+	tw := table.NewWriter(buf, o, nil, 0)
+	var firstOfBlock []int
+	for i := range keys {
+		before := tw.BlocksLen()
+		must(t, tw.Append(keys[i], values[i]))
+		if tw.BlocksLen() > before && i+1 < n {
+			firstOfBlock = append(firstOfBlock, i+1)
+		}
+	}
+	must(t, tw.Close())
+	if len(firstOfBlock) < 3 {
+		t.Skip("layout has too few blocks")
+	}
+	for _, ro := range []*opt.ReadOptions{nil, {DontFillCache: true}} {
+		for _, first := range firstOfBlock {
+			data := append([]byte(nil), buf.Bytes()...)
+			pos := bytes.Index(data, values[first])
+			if pos < 0 {
+				t.Fatalf("cannot locate the value to damage")
+			}
+			data[pos+8] ^= 0x01
+			tr, err := table.NewReader(bytes.NewReader(data), int64(len(data)), storage.FileDesc{}, nil, nil, o)
+			must(t, err)
+			for _, sought := range [][]byte{keys[first], append(append([]byte(nil), keys[first-1]...), 0)} {
+				rkey, rvalue, err := tr.Find(sought, false, ro)
+				if err == nil && bytes.Equal(rkey, keys[first]) && !bytes.Equal(rvalue, values[first]) {
+					t.Errorf("DontFillCache=%v: Find(%q) served the altered value %q without reporting corruption", ro != nil, sought, rvalue)
+				}
+			}
+			tr.Release()
+		}
+	}
+}
